@@ -8,6 +8,9 @@ import PyTRS.Model.TRS
 import PyTRS.Model.Plss
 import PyTRS.Model.Config
 import PyTRS.Model.Objects
+import PyTRS.Model.Containers
+import PyTRS.Model.Export
+import PyTRS.Model.World
 open PyTRS
 namespace Driver
 
@@ -166,7 +169,119 @@ def handleObj (fs : List String) : Option String :=
         | .ok (t2, ret) => if t2.diverged then "?diverged" else (PyVal.tup [tractSnap t2, .strs ret]).render)
   | _ => none
 
+
+/-! ### containers / export -/
+
+/-- element specs: `;`-separated, each `t:<uid>:<trs>:<desc>:<pq>:<cfg>` (Tract) or `r:<trs>` (TRS) -/
+def decElems (f : String) : List Cont.Elem :=
+  if f.isEmpty then [] else
+  (f.splitOn ";").filterMap (fun e =>
+    match e.splitOn ":" with
+    | ["t", uid, trs, desc, pq, cfg] =>
+      (match Obj.tractInit uid.toNat! (decText desc) (decOpt trs) (decCfgArg cfg) (some (decBool pq)) none none 0 with
+       | .ok t => some (Cont.Elem.tract t)
+       | .error _ => Option.none)
+    | ["r", trs] => some (Cont.Elem.trs (TRS.trsToDict (decOpt trs)))
+    | _ => Option.none)
+
+def elemTag : Cont.Elem → PyVal
+  | .tract t => .str t.desc
+  | .trs d => .str d.trs
+
+def tags (l : List Cont.Elem) : PyVal := .list (l.map elemTag)
+
+def decPred (f : String) : Cont.Elem → Bool :=
+  match f.splitOn ":" with
+  | ["secnum_lt", n] => fun e => match e.d.secNum with | some k => k < (n.toInt?.getD 0) | none => false
+  | ["twp_eq", t] => fun e => e.d.twp == decText t
+  | ["sec_odd"] => fun e => match e.d.secNum with | some k => k % 2 == 1 | none => false
+  | ["has_lots"] => fun e => match e with | .tract t => !t.lots.isEmpty | _ => false
+  | ["true"] => fun _ => true
+  | _ => fun _ => false
+
+def renderGroup (keys : List String) (g : List (List PyVal × List Cont.Elem)) : PyVal :=
+  .dict (g.map (fun kv => ((if keys.length == 1 then kv.1.headD .none else .tup kv.1), tags kv.2)))
+
+def handleCont (fs : List String) : Option String :=
+  match fs with
+  | ["cont.sort", elems, key, rev] =>
+    let (l, e) := Cont.customSort (decElems elems) (decText key) (decBool rev)
+    some (match e with
+      | some err => "!" ++ err.name ++ " " ++ (tags l).render
+      | none => (tags l).render)
+  | ["cont.filter", elems, pred, drop] =>
+    let (a, b) := Cont.filterBy (decElems elems) (decPred pred) (decBool drop)
+    some (PyVal.tup [tags a, tags b]).render
+  | ["cont.filter_errors", elems, twp, rge, sec, undef, drop] =>
+    let (a, b) := Cont.filterErrors (decElems elems) (decBool twp) (decBool rge) (decBool sec) (decBool undef) (decBool drop)
+    some (PyVal.tup [tags a, tags b]).render
+  | ["cont.filter_dups", elems, method, isTrs, drop] =>
+    some (match Cont.filterDuplicates (decElems elems) method (decBool isTrs) (decBool drop) with
+      | .ok (a, b) => (PyVal.tup [tags a, tags b]).render
+      | .error e => "!" ++ e.name)
+  | ["cont.group", elems, attrs] =>
+    let keys := attrs.splitOn ","
+    let l := decElems elems
+    let g := Cont.groupByMulti l (keys.map (fun k => fun e => Export.elemAttr e k))
+    some (PyVal.tup [renderGroup keys g, tags (Cont.unpackGroup g)]).render
+  | ["export.rows", elems, attrs, nice, fileExists, mode] =>
+    let ts := (decElems elems).filterMap (fun e => match e with | .tract t => some t | _ => Option.none)
+    let atts := if attrs.isEmpty then [] else attrs.splitOn ","
+    let rows := Export.tractsToCsvRows ts atts (decBool nice) (decBool fileExists) mode
+    let text := (rows.map Export.writeRow).flatten
+    some (PyVal.tup [.list (rows.map PyVal.strs), .str text, .list ((Export.readCsv text).map PyVal.strs),
+                     .list (ts.map (fun t => Export.toDict t atts))]).render
+  | ["csv.roundtrip", rowsF] =>
+    -- rows: `|`-separated rows of `,`-separated hex fields
+    let rows : List (List Str) := if rowsF.isEmpty then [] else
+      (rowsF.splitOn "|").map (fun r => (r.splitOn ",").map (fun f => decText (f.drop 1).toString))
+    let text := (rows.map Export.writeRow).flatten
+    some (PyVal.tup [.str text, .list ((Export.readCsv text).map PyVal.strs)]).render
+  | _ => Option.none
+
+/-! ### histories -/
+
+def renderOut : World.Out → String
+  | .none => "N"
+  | .err e => "!" ++ e.name
+  | .diverged => "?diverged"
+  | .dict d => d.toPy.render
+  | .desc d => (descSnap d).render
+  | .descAndTracts d ts => (PyVal.tup [descSnap d, .list (ts.map tractSnap)]).render
+  | .descAndStr d s => (PyVal.tup [descSnap d, .str s]).render
+  | .tract t => (tractSnap t).render
+  | .tractAndRet t r => (PyVal.tup [tractSnap t, .strs r]).render
+  | .tractAndStr t s => (PyVal.tup [tractSnap t, .str s]).render
+  | .strs l => (PyVal.strs l).render
+
+def optB (f : String) : Option Bool := match decKV f with | .b v => some v | _ => Option.none
+
+def decOp (fs : List String) : Option World.Op :=
+  match fs with
+  | ["w.mc", ns, ew] => some (.setMC (decText ns) (decText ew))
+  | ["w.cache", "on"] => some (.cacheOn true)
+  | ["w.cache", "off"] => some (.cacheOn false)
+  | ["w.cache", "clear"] => some .cacheClear
+  | ["w.warm", t] => some (.warm (decText t))
+  | ["w.todict", t] => some (.toDict (decOpt t))
+  | ["w.desc", id, t, layout, cfg, pq, src, wait] =>
+    some (.newDesc id.toNat! (decText t) (decOpt layout) (decCfgArg cfg) (optB pq) (decOpt src) (optB wait))
+  | ["w.desc.parse", id, commit, kw] => some (.descParse id.toNat! (descKw (decKwargs kw)) (decBool commit))
+  | ["w.desc.parse_tracts", id, cfg, kw] => some (.descParseTracts id.toNat! (decOpt cfg) (tractKw (decKwargs kw)))
+  | ["w.desc.preprocess", id, commit] => some (.descPreprocess id.toNat! (decBool commit))
+  | ["w.desc.config", id, cfg] => some (.descConfig id.toNat! (decCfgArg cfg))
+  | ["w.desc.sort", id, key, rev] => some (.descSort id.toNat! (decText key) (decBool rev))
+  | ["w.tract", id, t, trs, cfg, pq] => some (.newTract id.toNat! (decText t) (decOpt trs) (decCfgArg cfg) (optB pq))
+  | ["w.tract.parse", id, commit, kw] => some (.tractParse id.toNat! (tractKw (decKwargs kw)) (decBool commit))
+  | ["w.tract.preprocess", id, c, commit] => some (.tractPreprocess id.toNat! (optB c) (decBool commit))
+  | ["w.tract.config", id, cfg] => some (.tractConfig id.toNat! (decCfgArg cfg))
+  | ["w.find_twprge", t, ns, ew, pre, ocr] => some (.findTwprge (decText t) (decOpt ns) (decOpt ew) (decBool pre) (decBool ocr))
+  | _ => Option.none
+
 def handleModel (fs : List String) : Option String :=
+  match handleCont fs with
+  | some r => some r
+  | none =>
   match handleObj fs with
   | some r => some r
   | none =>
@@ -254,5 +369,14 @@ def handle (fs : List String) : String :=
     | some i => (PyVal.int i).render
     | none => "!ValueError"
   | _ => "?badop"
+
+/-- stateful entry point: `w.*` requests thread a World, everything else is stateless -/
+def handleW (w : World.World) (fs : List String) : World.World × String :=
+  match fs with
+  | ["w.reset"] => ({}, "ok")
+  | _ =>
+    match decOp fs with
+    | some op => let (w', o) := World.step w op; (w', renderOut o)
+    | none => (w, handle fs)
 
 end Driver
